@@ -680,8 +680,12 @@ def _run(plan, B: _Built, *, probe: bool, extras: bool, deterministic: bool = Fa
 # ======================================================================================
 
 
-def _reference(plan, B: _Built, draws, n_steps, lib_rate=None):
-    """States after 0..n_steps steps of the documented update, fed with the recorded draws."""
+def _reference(plan, B: _Built, draws, n_steps, lib_rate=None, anchors=None):
+    """States after 0..n_steps steps of the documented update, fed with the recorded draws.
+
+    anchors: {k: state observed after k steps} - where given, step k+1 starts from the observed state instead of the
+    reference's own (needed when the noise amplitude is not Lipschitz: sqrt(s1*max(c, 0)) turns a difference of 1e-20
+    in a cell that crosses zero into 1e-10)."""
     dt = plan["dt"]
     alpha = ALPHA[plan["interp"]]
     solver = plan["solver"]
@@ -691,6 +695,8 @@ def _reference(plan, B: _Built, draws, n_steps, lib_rate=None):
     traj = [u]
     for k in range(n_steps):
         xi = draws[k]
+        if anchors is not None and k in anchors:
+            u = anchors[k]
         var, dvar = B.variance(u)
         noise = np.sqrt(var * dt / vol) * xi
         if solver == "implicit":
@@ -816,8 +822,18 @@ def execute(plan: dict) -> dict:
         log.add("run", tag, run["steps"], fbits(run["final"]), len(run["gen"].normals), len(run["gen"].others))
         return True
 
-    def check_probe_and_final(tag, run, traj, klass):
+    def check_probe_and_final(tag, run, traj, klass, draws=None):
         """Oracle 2: the state after every step and the final state equal the reference."""
+        anchored = None
+        if getattr(B, "ramp", False):
+            # non-Lipschitz noise amplitude: every step is judged from the OBSERVED state before it; a final state whose
+            # predecessor was not observed is not compared with the reference (the runs are still compared with each other)
+            anchored = {}
+            for (t_, data_) in run["probe"]:
+                anchored[int(round((t_ - plan["t_start"]) / dt))] = np.array(data_, copy=True)
+            if draws is not None and anchored:
+                traj = _reference(plan, B, draws, len(traj) - 1, lib_rate, anchors=anchored)
+                probe("reference_anchored_at_observed_states")
         scale = max(float(np.max(np.abs(t_))) for t_ in traj)
         seen = set()
         for (t, data) in run["probe"]:
@@ -833,6 +849,9 @@ def execute(plan: dict) -> dict:
         if run["probe"] and len(seen) < run["steps"] + 1:
             probe("steps_not_observed_by_probe", run["steps"] + 1 - len(seen))
         s = run["steps"]
+        if anchored is not None and (draws is None or (s - 1) not in anchored):
+            probe("final_state_of_non_lipschitz_plan_not_compared_with_reference")
+            return
         if s < len(traj) and not close(run["final"], traj[s], scale):
             fail(klass, f"{tag}: final state after {s} steps differs from the reference; "
                  f"{_describe_mismatch(run['final'], traj[s], B)}; {where}")
@@ -912,7 +931,7 @@ def execute(plan: dict) -> dict:
             log.add("randn", k, list(shape), fbits(values))
         if len(draws) == steps and all(v.shape == B.shape for _, v in draws):
             traj = _reference(plan, B, [v for _, v in draws], steps, lib_rate)
-            check_probe_and_final("P", p, traj, "C13/numba-step-formula")
+            check_probe_and_final("P", p, traj, "C13/numba-step-formula", draws=[v for _, v in draws])
         else:
             # "a standard normal number per cell and component": however the numba path organises its calls, a step cannot
             # use fewer normal numbers than the state has entries with a non-vanishing variance
@@ -979,7 +998,7 @@ def execute(plan: dict) -> dict:
     traj = None
     if draws_ok:
         traj = _reference(plan, B, [v for _, _, v in p["gen"].normals], steps, lib_rate)
-        check_probe_and_final("run with per-step probe", p, traj, "C13/step-formula")
+        check_probe_and_final("run with per-step probe", p, traj, "C13/step-formula", draws=[v for _, _, v in p["gen"].normals])
 
     # ------------------------------------------------------------------ oracles 1+3: other tracker sets, same seed
     def compare_runs(tag, run):
@@ -1000,7 +1019,7 @@ def execute(plan: dict) -> dict:
                      f"run with the per-step probe (autonomous rate: {B.autonomous}); {_describe_mismatch(run['final'], p['final'], B)}; {where}")
         elif traj is not None and draws_ok:
             ref = _reference(plan, B, [v for _, _, v in run["gen"].normals], run["steps"], lib_rate)
-            check_probe_and_final(tag, run, ref, "C13/step-formula")
+            check_probe_and_final(tag, run, ref, "C13/step-formula", draws=[v for _, _, v in run["gen"].normals])
 
     if plan["trackers"]:
         e = _run(plan, B, probe=False, extras=True)
